@@ -299,7 +299,8 @@ class DemoStorage(ConflictResolvingStorage):
         with self._lock:
             while 1:
                 oid = ZODB.utils.p64(self._next_oid)
-                if oid not in self._issued_oids:
+                if (oid not in self._issued_oids
+                        and oid not in self._stored_oids):
                     try:
                         load_current(self.changes, oid)
                     except ZODB.POSException.POSKeyError:
